@@ -11,11 +11,15 @@ protocol version / credential class, anchored on golden artefacts).
        independent parser + `cryptography` verify primitives) walks the real bytes along the automaton and logs one event
        per step; every enumerated substitution is spliced on the real bytes and decided by the twin
  TV  : DatTrace - TLC recomputes every offset / length / coverage / verdict and rejects a trace that is not a behaviour of the R-spec
+ lane "cred" (c15_cred.py, DatCredGen): histories of ONE credential object - sign, export, set a signed field, sign again, export again,
+       parse - on every credential class; every exported credential must verify under the RoT key over exactly the bytes in front of the
+       signature and carry / parse back to the CURRENT field values (object model in DatTerms, decided step by step in DatTrace)
 """
 import json
 import os
 import struct
 
+import c15_cred as C
 import c15_dev as D
 from lib import tlc
 from lib.common import ROOT, Machinery, import_spsdk, rng, say, scratch
@@ -326,7 +330,7 @@ def shape(pub):
 def case_event(sc, ks):
     case = sc["case"]
     rot, dck = key_names(sc)
-    return {"e": "Case", "cls": case["cls"], "ver": list(case["ver"]), "nkeys": case["nkeys"], "used": case["used"], "wild": case["wild"], "sha256": sc["fam"]["sha256"],
+    return {"e": "Case", "lane": sc.get("lane", "main"), "cls": case["cls"], "ver": list(case["ver"]), "nkeys": case["nkeys"], "used": case["used"], "wild": case["wild"], "sha256": sc["fam"]["sha256"],
             "lz": case.get("lz", "none"), "coord": case.get("coord", "-"),
             "shapes": {"rot": [shape(D.load_pub(kp(k, ks, "pub"))) for k in rot], "dck": shape(D.load_pub(kp(dck, ks, "pub")))}, "skip": []}
 
@@ -367,7 +371,7 @@ def strip_idx(n):
 def run_scenario(sc):
     """Execute one credential case on the real code; returns the trace (events) and a small witness."""
     try:
-        return _run_scenario(sc)
+        return C.run_cred_scenario(sc) if sc.get("lane") == "cred" else _run_scenario(sc)
     except Machinery:
         raise
     except Exception as e:  # noqa: BLE001 - a bug of the harness must not look like a verdict
@@ -944,7 +948,9 @@ def finding_key(t, matched):
     e = ev.get("e")
     nk = "nkeys>1" if sc["case"]["nkeys"] > 1 else "nkeys=1"
     detail = ""
-    if "exc" in ev:
+    if str(e).startswith("Cred"):
+        detail = C.finding_detail(t, matched)
+    elif "exc" in ev:
         detail = f"{nk}/exc={ev['exc']}"
     elif "err" in ev:
         detail = f"{nk}/walk-error"
@@ -1038,8 +1044,9 @@ def validate(v, traces):
         t = by_id[tid]
         key = finding_key(t, matched)
         ev = t["ev"][matched] if matched < len(t["ev"]) else {}
+        wit = C.witness(t, matched) if evname.startswith("Cred") else dict(slim(t), failed_event=matched + 1)
         v.violation(key, f"{t['sc']['fam']['family']}/{t['sc']['fam']['revision']} case {json.dumps(t['sc']['case'])}: event #{matched + 1} ({evname}) is not a step of the R-spec: "
-                    f"{json.dumps({k: x for k, x in ev.items() if k not in ('fields',)})[:300]}", dict(slim(t), failed_event=matched + 1))
+                    f"{json.dumps({k: x for k, x in ev.items() if k not in ('fields',)})[:300]}", wit)
     return rej
 
 
@@ -1051,6 +1058,8 @@ def continuation(t, matched, rnd):
     if matched >= len(t["ev"]):
         return None
     name = t["ev"][matched]["e"]
+    if name.startswith("Cred"):     # the other histories of the scenario are still decided
+        return C.cut_history(t, matched, t["id"] % 100000 + 100000 * (rnd + 1))
     if name not in SKIPPABLE and name not in ("Attempt", "Tamper", "History"):
         return None
     ev = json.loads(json.dumps(t["ev"][:matched] + t["ev"][matched + 1:]))
@@ -1061,10 +1070,11 @@ def continuation(t, matched, rnd):
     return dict(t, id=t["id"] % 100000 + 100000 * (rnd + 1), ev=ev)
 
 
-def canary(fams):
+def canary(credhists):
     """One known-good trace must be accepted; the same trace with one corrupted field must be rejected - for several clauses.
-    The known-good trace comes from a host made of the twin's own tools (RefHost), so it does not depend on the tree under test."""
-    fam = next(f for f in fams if f["fclass"] == "cb21" and f["latest"])
+    The known-good traces come from a host made of the twin's own tools (RefHost, C.RefCred) for made-up families (C.CANARY_FAM): no
+    line of the tree under test runs for them, so a defect of SPSDK cannot turn the canary into a machinery failure."""
+    fam = C.CANARY_FAM["cb21"]
     case = {"kind": "case", "cls": "classic", "ver": [2, 0], "nkeys": 3, "used": 1, "wild": False}
     good = run_scenario({"id": 999999, "case": case, "fam": fam, "attempts": core_attempts(True), "histories": core_histories("classic", False), "tools": True,
                          "via": "yaml-family", "explicit_version": False, "dar_via": "create", "dc_for_dar": "created", "refhost": True})
@@ -1077,7 +1087,7 @@ def canary(fams):
     for k, (cls, ver, nk, used, wild, fclass, lz, coord) in enumerate([
             ("classic", [1, 0], 2, 1, True, "cb1", "none", "-"), ("ele1", [2, 1], 4, 3, False, "ele1", "none", "-"), ("classic", [2, 1], 1, 0, True, "cb21-sha256", "none", "-"),
             ("classic", [2, 0], 3, 1, False, "cb21", "other", "x"), ("classic", [2, 1], 2, 0, True, "cb21", "used", "y"), ("ele1", [2, 0], 4, 2, False, "ele1", "dck", "x")]):
-        f2 = next(f for f in fams if f["fclass"] == fclass and f["latest"])
+        f2 = C.CANARY_FAM[fclass]
         t2 = run_scenario({"id": 999990 + k, "case": {"kind": "case", "cls": cls, "ver": ver, "nkeys": nk, "used": used, "wild": wild, "lz": lz, "coord": coord}, "fam": f2,
                            "attempts": core_attempts(ver[0] == 2), "histories": core_histories(cls, False), "tools": True, "via": "yaml-family",
                            "explicit_version": False, "dar_via": "create", "dc_for_dar": "created", "refhost": True})
@@ -1123,11 +1133,16 @@ def canary(fams):
     mutate("bad-shape", lambda m, evs: m["Case"]["shapes"]["rot"].__setitem__(0, "x"))  # a key of another shape than the case says
     mutate("bad-tools2", lambda m, evs: m["CheckRotHash"].update(tools2="11" + m["CheckRotHash"]["tools2"][2:] if not m["CheckRotHash"]["tools2"].startswith("11")
                                                                  else "00" + m["CheckRotHash"]["tools2"][2:]))
-    rej, _ = tlc.tv("C15", "DatTrace", [g] + more + bad)
-    want = {b["id"] for b in bad}
+    cgood, cbad, cat = C.canary_traces(credhists)
+    rej, _ = tlc.tv("C15", "DatTrace", [g] + more + cgood + bad + cbad)
+    want = {b["id"] for b in bad + cbad}
     if set(rej) != want:
         raise Machinery(f"canary failed: rejected {sorted(rej)}, expected exactly {sorted(want)}")
-    return f"{1 + len(more)} traces of the reference host accepted, {len(bad)} single-field corruptions rejected ({', '.join(sorted(want))})"
+    wrong = {k: rej[k][2] for k, name in cat.items() if rej[k][2] != name}
+    if wrong:
+        raise Machinery(f"canary failed: credential-object traces rejected at another step than the corrupted one: {wrong}")
+    return (f"{1 + len(more)} traces of the reference host and {len(cgood)} traces of the reference credential object accepted, {len(bad) + len(cbad)} corruptions "
+            f"rejected ({', '.join(sorted(want))})")
 
 
 def run(tier):
@@ -1140,11 +1155,21 @@ def run(tier):
     if bad:
         raise Machinery("device twin disagrees with the anchored artefacts: " + "; ".join(bad))
 
-    # ---- GEN: cases + delivery attempts, lemmas over both spaces
-    gen = tlc.run("C15", "DatGen", "DatGen.cfg", workers=1, timeout=300)
+    # ---- GEN: cases + delivery attempts + histories of the host (DatGen) and histories of one credential object (DatCredGen), side by
+    #      side in two forked children; lemmas over all spaces
+    from lib.ptv import prun
+
+    gen, cgen = prun([("run", ("C15", "DatGen", "DatGen.cfg"), {"workers": 1, "timeout": 300}),
+                      ("run", ("C15", "DatCredGen", "DatCredGen.cfg"), {"workers": 1, "timeout": 300})])
     if gen.violated or not gen.no_error:
         raise Machinery(f"DatGen: lemma {gen.violated} does not hold\n" + "\n".join(gen.out.splitlines()[-30:]))
     v.add_mc(gen)
+    if cgen.violated or not cgen.no_error:
+        raise Machinery(f"DatCredGen: lemma {cgen.violated} does not hold\n" + "\n".join(cgen.out.splitlines()[-30:]))
+    v.add_mc(cgen)
+    credhists = [[{"op": o["op"], "f": o["f"]} for o in x["h"]] for x in cgen.json_prints() if x.get("kind") == "credhist"]
+    if len(credhists) != 5268 or cgen.distinct != 14809 or len({C.hkey(h) for h in credhists}) != len(credhists):
+        raise Machinery(f"DatCredGen emitted {len(credhists)} histories of one credential object over {cgen.distinct} states")
     items = gen.json_prints()
     cases = [x for x in items if x["kind"] == "case"]
     attempts = [{k: x for k, x in a.items() if k != "kind"} for a in items if a["kind"] == "attempt"]
@@ -1152,7 +1177,8 @@ def run(tier):
     n_plain = len([c for c in cases if c["lz"] == "none"])
     if n_plain != 164 or len(cases) != 588 or len(attempts) != 2304 or len(histories) != 2040 or gen.distinct != len(items):
         raise Machinery(f"GEN emitted {len(cases)} cases ({n_plain} plain) / {len(attempts)} attempts / {len(histories)} histories / {gen.distinct} states")
-    say(f"[C15] GEN done {v.timer.s()}s: {len(cases)} cases ({len(cases) - n_plain} with a leading-zero key), {len(attempts)} delivery attempts, {len(histories)} histories")
+    say(f"[C15] GEN done {v.timer.s()}s: {len(cases)} cases ({len(cases) - n_plain} with a leading-zero key), {len(attempts)} delivery attempts, {len(histories)} histories, "
+        f"{len(credhists)} histories of one credential object")
     for ks_ in ("ecc256", "ecc384"):   # the key pool has the shapes the case space names
         for nm, want in (("lzx", "x"), ("lzy", "y"), ("srk0", "-"), ("srk1", "-"), ("srk2", "-"), ("srk3", "-"), ("dck", "-")):
             if shape(D.load_pub(kp(nm, ks_, "pub"))) != want:
@@ -1183,10 +1209,15 @@ def run(tier):
     if len({f["family"] for f in fams}) < 60:
         raise Machinery(f"only {len(fams)} DAT families found in the database")
     scs = plan(cases, attempts, fams, tier, r, histories)
-    say(f"[C15] {len(scs)} scenarios over {len({(s['fam']['family'], s['fam']['revision']) for s in scs})} family revisions")
+    cscs = C.plan(cases, fams, tier, rng(PROP, "cred-plan"), credhists, len(scs))
+    say(f"[C15] {len(scs)} scenarios over {len({(s['fam']['family'], s['fam']['revision']) for s in scs})} family revisions; credential-object lane: "
+        f"{len(cscs)} scenarios, {sum(len(s['chists']) for s in cscs)} histories")
     order = r.sample(scs, k=len(scs))  # spread the expensive (RSA-4096) scenarios over the pool
-    traces = sorted(pmap(run_scenario, order, chunksize=2), key=lambda t: t["id"])
-    herr = [t for t in traces if t.get("harness_error")]
+    order = cscs + order               # the long ones first
+    alltr = sorted(pmap(run_scenario, order, chunksize=2), key=lambda t: t["id"])
+    traces = [t for t in alltr if t["sc"].get("lane") != "cred"]
+    ctraces = [t for t in alltr if t["sc"].get("lane") == "cred"]
+    herr = [t for t in alltr if t.get("harness_error")]
     if herr:
         raise Machinery(f"harness error in scenario {herr[0]['sc']['id']} ({herr[0]['sc']['fam']['family']}, {herr[0]['sc']['case']}): {herr[0]['harness_error']}")
     say(f"[C15] executed {v.timer.s()}s")
@@ -1259,8 +1290,14 @@ def run(tier):
                    history_steps_refused={k: len(x) for k, x in sorted(hrefused.items())},
                    families=len({t["sc"]["fam"]["family"] for t in traces}), family_revisions=len({(t["sc"]["fam"]["family"], t["sc"]["fam"]["revision"]) for t in traces}))
 
+    # ---- the credential-object lane: what was executed (non-vacuity: every class signed again after a change of every field class)
+    cstats = C.account(v, ctraces)
+    v.extra.update(cred_scenarios=len(ctraces), cred_histories=cstats["histories"], cred_steps=cstats["steps"], cred_exports_decided=cstats["exports_decided"],
+                   cred_exports_after_resign=dict(sorted(cstats["exports_after_resign"].items())), cred_parses=cstats["parses"],
+                   cred_steps_refused=dict(sorted(cstats["refused"].items())))
+
     # ---- canary, then TLC decides every trace
-    v.extra["canary"] = canary(fams)
+    v.extra["canary"] = canary(credhists)
     say(f"[C15] canary done {v.timer.s()}s")
     good = next((t for t in traces if t["ev"][-2]["e"] == "Tamper" and t["sc"]["case"]["ver"] == [2, 0]), traces[0])
     v.sample({"scenario": good["sc"]["case"], "family": good["sc"]["fam"]["family"], "events": [e for e in good["ev"] if e["e"] not in ("Attempt", "Tamper")][:14]})
@@ -1278,7 +1315,12 @@ def run(tier):
     rsa = next((t for t in traces if t["sc"]["case"]["ver"][0] == 1 and t["sc"]["case"]["wild"] and t["ev"][-2]["e"] == "Tamper"), None)
     if rsa:
         v.sample({"rsa_wildcard_other_device": [e for e in rsa["ev"] if e["e"] == "Attempt" and e["a"]["d"] == "d2" and e["verdict"] == "Accept"][:2]})
-    pending, rounds = traces, 0
+    ct = next((t for t in ctraces if t["sc"]["case"]["cls"] == "classic" and t["sc"]["case"]["ver"][0] == 2), None)
+    if ct:
+        hs = C.histories_of(ct["ev"])
+        v.sample({"scenario": ct["sc"]["case"], "family": ct["sc"]["fam"]["family"], "lane": "one credential object",
+                  "history": [{k: x for k, x in e.items() if k != "fields"} for e in hs[1][1]] if len(hs) > 1 else []})
+    pending, rounds = traces + ctraces, 0
     while pending and rounds < 8:
         rej = {}
         rej.update(validate(v, pending))
@@ -1298,9 +1340,15 @@ def run(tier):
         "the honest exchange, the core substitutions and a round-robin share of the 2304 delivery attempts TLC enumerates, core histories (configuration object / "
         "credential object / response object used again for other challenges, beacons, devices) and a round-robin share of the 2040 histories TLC enumerates "
         "(quick tier: on the plain cases; RSA: core histories only, on every second - RSA-4096: eighth - scenario; key-shape cases with device-specific credentials and the core attempts only), plus one bit flip per field of the response; "
-        "distinct = (family class, case), (class, wildcard, attempt) and (class, key type, wildcard, history)"
+        f"credential-object lane: per (class, protocol version) {2 if tier == 'quick' else 8} scenarios (one device-specific, one wildcard credential) on different families, each "
+        "running on a NEW object per history the core histories (for EACH settable field class sign - export - set - sign again - export again - parse; unsigned export; "
+        "set between two exports; the parsed object changed and signed; two fields; sign / export twice) and a round-robin share of the 5268 histories of up to six "
+        f"operations TLC enumerates ({v.extra['cred_histories']} histories, {v.extra['cred_exports_decided']} exports decided); values of a Set drawn from the classes "
+        "random / zero / all ones / one bit away from the current value (SoC class: another one the credential classes treat alike; debug key: another key file); "
+        "distinct = (family class, case), (class, wildcard, attempt), (class, key type, wildcard, history) and (credential class, history of one object)"
     )
-    v.cov["checker_cmd"] = "TLC DatGen (cases, attempts, lemmas) ; TLC DatMC (protocol invariants) ; TLC DatTrace (decides every trace)"
+    v.cov["checker_cmd"] = ("TLC DatGen (cases, attempts, histories of the host, lemmas) ; TLC DatCredGen (histories of one credential object, lemmas) ; "
+                            "TLC DatMC (protocol invariants) ; TLC DatTrace (decides every trace)")
     v.cov["trusted_base"] = ["TLC", "cryptography: RSA PKCS#1 v1.5 / PSS verify, ECDSA verify, PEM key loading - called directly", "hashlib (SHA-256/384/512)",
                              "harness/c15_dev.py walkers; layouts anchored on 5 golden credentials + 3 challenges of tests/dat/data (container v2: documentation tables only)"]
     v.assumptions += [
@@ -1317,6 +1365,13 @@ def run(tier):
         "its own `beacon` entry set by the caller), DebugAuthenticateResponse.create (the credential object it holds already) and export() of a response object "
         "it holds already; assigning to attributes of a finished response object (dar.dac = ..., dar.auth_beacon = ...) is not a way of building a response the "
         "property talks about and is not asserted; a step SPSDK refuses builds nothing (counted in coverage.history_steps_refused)",
+        "histories of one credential object: Set = assignment to the public attributes socc / uuid / cc_socu / cc_vu / cc_beacon / dck_pub (container version 2: "
+        "the documented property setters socc / socu / beacon; its `uuid` attribute is a copy the certificate does not read - not a field the class lets the "
+        "user set) followed by sign(); the API does not forbid changing a credential after signing (sign() = 'Sign the DC data', export() = 'call the `sign` method "
+        "first'). NOT asserted: an export after a Set WITHOUT a sign() in between (and anything parsed from it, and the signature the object holds until the next "
+        "sign()); whether sign() of an object parsed from bytes (no signature provider) is refused - but a sign() that returns must have signed (container "
+        "version 2 excepted: its signature container documents that it keeps the raw signature it was parsed with when it has no key, so a parsed v2 credential "
+        "that is changed and 'signed' exports a stale signature - observation, not reported); a step SPSDK refuses changes nothing (coverage.cred_steps_refused)",
         "key shapes: leading-zero coordinates are asked for P-256 / P-384 (keys derived once, keys/c15/gen_lz.py); the P-521 keys of the pool have the shape anyway, "
         "an RSA modulus has none; the second image-tool path (certificate block v2.1 over the same key files) exists for the classic ECC credentials only",
         "a configuration SPSDK refuses creates nothing and is outside the property (counted in coverage.refused)",
